@@ -131,6 +131,28 @@ def side_case(seed):
     x = rand_x(rng, d, m, 'float')
     npairs = rng.choice([1, 1, 2, 3])
     pairs = rand_pairs(rng, m, npairs)
+    if rng.random() < 0.3:
+        # a linear system with a complex-conjugate pair close to 1 in real part but farther from 1 than a real eigenvalue:
+        # ordering by |lambda - 1| differs from ordering by real part; linear observables make EDMD exact
+        th = rng.uniform(0.3, 0.6)
+        rho = rng.uniform(0.85, 1.0)
+        lam_r = rng.uniform(0.55, 0.8) * (rho * np.cos(th))
+        A = np.zeros((3, 3))
+        A[:2, :2] = rho * np.array([[np.cos(th), -np.sin(th)], [np.sin(th), np.cos(th)]])
+        A[2, 2] = lam_r
+        T = np.array([[rng.uniform(-1, 1) for _ in range(3)] for _ in range(3)]) + 2 * np.eye(3)
+        A = T @ A @ np.linalg.inv(T)
+        d, m = 3, rng.randint(5, 8)
+        x = np.zeros((3, m))
+        x[:, 0] = [rng.uniform(0.5, 1.5) for _ in range(3)]
+        for t in range(1, m):
+            x[:, t] = A @ x[:, t - 1]
+        basis = [[tdt.Identity(0), tdt.Identity(1), tdt.Identity(2)], [tdt.ConstantFunction(0)]]
+        p, N = 2, 3
+        pairs = [(np.arange(0, m - 1), np.arange(1, m))]
+        if rng.random() < 0.5:
+            pairs.append((np.arange(0, m - 2), np.arange(2, m)))
+        npairs = len(pairs)
     desc = dict(which=variant, d=d, p=p, N=N, m=m, npairs=npairs, sizes=[len(a) for a, _ in pairs])
     try:
         P = psi_matrix(tables(x, basis))
@@ -182,6 +204,18 @@ def side_case(seed):
                 if j < 0 or abs(np.real(r_) - rem[j]) > 1e-6 * scale:
                     return 'pair %d: non-zero EDMD eigenvalue %s has no counterpart in %s' % (i, r_, ev), desc
                 rem.pop(j)
+            # ordered by the distance of the (complex) eigenvalue to 1: match every returned real part with a reference
+            # eigenvalue (conjugate partners have the same real part and the same distance) and look at the distances
+            pool = list(ref)
+            dists = []
+            for e_ in ev:
+                j = int(np.argmin([abs(np.real(r_) - e_) for r_ in pool]))
+                dists.append(abs(pool[j] - 1))
+                pool.pop(j)
+            reals = sorted(np.real(ref))
+            sep = min([b_ - a_ for a_, b_ in zip(reals, reals[1:]) if b_ - a_ > 1e-9 * scale] + [1.0])
+            if sep > 1e-5 * scale and np.any(np.diff(dists) < -1e-7 * scale):
+                return 'pair %d: eigenvalues not ordered by |lambda - 1| of the complex eigenvalues: %s (distances %s)' % (i, ev, dists), desc
             if any(abs(e_) > 1e-6 * scale for e_ in rem):
                 return 'pair %d: returned eigenvalues %s beyond the non-zero EDMD spectrum' % (i, rem), desc
             # ordered by distance to 1 (on the complex eigenvalues; decidable here when the spectrum is real)
